@@ -502,5 +502,13 @@ Definition textx_accepted_diffs : list (list N * list N) :=
     (* NOTATION separator: (x sep)* x  vs  x+[sep]  (the two forms differ as nodes - after `a,` one fails, the
        other succeeds on `a` - and agree only in their context; x (sep x)* vs x+[sep] is decided by the checker) *)
     ("rrel_sequence", "RRELSequence.0"); ("rrel_path.0", "RRELPath.0");
-    (* NOTATION terminals: two-alternative string_value vs the STRING regex; one regex /.../ vs '/' regex '/' *)
-    ("string_value", "STRING"); ("str_match", "STRING"); ("re_match", "ReMatch") ]%string.
+    (* NOTATION+FINDING: one regex /.../ vs '/' regex '/' (known finding regex-backslash-end) *)
+    ("re_match", "ReMatch");
+    (* NOTATION terminals: two-alternative string_value vs the STRING regex: decided in weak (acceptance) mode
+       under the oracle hypothesis textx_alt_patterns; still differing in strong (error position) mode *)
+    ("string_value", "STRING"); ("str_match", "STRING") ]%string.
+
+(* accepted pairs of the acceptance-only (weak) check *)
+Definition textx_accepted_diffs_acc : list (list N * list N) :=
+  filter (fun p => negb (lp_eqb p (sN "string_value", sN "STRING")) && negb (lp_eqb p (sN "str_match", sN "STRING")))%string
+         textx_accepted_diffs.
